@@ -176,11 +176,18 @@ fn cli(input: &str, out: &str, hyeong: &str, work: &str, jobs: usize) {
         let _ = std::fs::remove_dir_all(&dir);
         let se = String::from_utf8_lossy(&e).to_string();
         let body: Vec<u8> = if sub == "run" {
-            let marker = b"==> running code\n";
-            match o.windows(marker.len()).position(|w| w == marker) {
-                Some(p) => o[p + marker.len()..].to_vec(),
-                None => Vec::new(),
+            // leading log lines ("==> ...") are the tool's, the rest is the program's
+            let mut pos = 0usize;
+            while o[pos..].starts_with("==> ".as_bytes()) || o[pos..].starts_with("⮑".as_bytes()) {
+                match o[pos..].iter().position(|b| *b == b'\n') {
+                    Some(nl) => pos += nl + 1,
+                    None => {
+                        pos = o.len();
+                        break;
+                    }
+                }
             }
+            o[pos..].to_vec()
         } else {
             o.clone()
         };
@@ -201,7 +208,7 @@ fn cli(input: &str, out: &str, hyeong: &str, work: &str, jobs: usize) {
         ev["timeout"] = json!(cut_output);
         ev["stdout"] = json!(body);
         ev["stderr"] = json!(e.iter().take(4000).cloned().collect::<Vec<u8>>());
-        ev["diag"] = json!(se.contains("[error]"));
+        ev["diag"] = json!(!e.is_empty());
         ev["panicked"] = json!(se.contains("panicked at") || se.contains("RUST_BACKTRACE"));
         ev["lines"] = json!(String::from_utf8_lossy(&o).lines().filter(|l| !l.starts_with("==> ")).count());
         vec![ev]
